@@ -8,38 +8,35 @@ Ltac murphy_go :=
   cbn -[Qmult Qplus Qminus Qopp Qdiv Qinv Qabs]; repeat split; try lra; try contradiction; try (exfalso; lra).
 
 (* Round 4: observation and threshold may be INFINITE (they only enter comparisons and the distance t - o; when both are the
-   same infinity the observation sits on the threshold and both scores charge 0).  The FORECAST stays finite-or-NaN:
-   murphy_impl.py builds its zero array as `fcst * 0.0`, which is NaN for an infinite forecast, so murphy_score does not
-   return the penalty there (quantile and Huber functionals); the identity is claimed for infinite forecasts only once that is
-   repaired in /repo. *)
+   same infinity the observation sits on the threshold and both scores charge 0).
+   Round 5: so may the FORECAST.  murphy_impl.py used to build its zero array as `fcst * 0.0` (NaN for an infinite forecast);
+   since /repo 806a3e1 it is `xr.zeros_like(fcst, dtype=float)` (regenerated as the constant 0), and the identities hold for
+   every extended value of forecast, observation and threshold. *)
 Ltac x3 f o t :=
-  destruct f as [|f|]; destruct o as [|o|[|]]; destruct t as [|t|[|]]; try discriminate.
+  destruct f as [|f|[|]]; destruct o as [|o|[|]]; destruct t as [|t|[|]].
 
 Lemma firm_murphy_quantile (a : Q) (f o t : xv) :
-  xisinf f = false ->
   let '(tot, over, under) := gen_firm_single f o (XFin a) t (XFin 0) "lower" in
   let '(mt, mo, mu) := murphy_point (fun f o t => gen_c12_murphy_quantile f o t (XFin a)) f o t in
   tot =x= mt /\ over =x= mo /\ under =x= mu.
 Proof.
-  intros Hf. x3 f o t; try (cbn; repeat split; exact I); murphy_go.
+  x3 f o t; try (cbn; repeat split; exact I); murphy_go.
 Qed.
 
 Lemma firm_murphy_huber (a d : Q) (f o t : xv) : 0 < d ->
-  xisinf f = false ->
   let '(tot, over, under) := gen_firm_single f o (XFin a) t (XFin d) "lower" in
   let '(mt, mo, mu) := murphy_point (fun f o t => gen_c12_murphy_huber f o t (XFin a) (XFin d)) f o t in
   tot =x= mt /\ over =x= mo /\ under =x= mu.
 Proof.
-  intros Hd Hf. x3 f o t; murphy_go.
+  intros Hd. x3 f o t; murphy_go.
 Qed.
 
 Lemma firm_murphy_expectile (a : Q) (f o t : xv) : 0 < a < 1 ->
-  xisinf f = false ->
   let '(tot, over, under) := gen_firm_single f o (XFin a) t (XInf true) "lower" in
   let '(mt, mo, mu) := murphy_point (fun f o t => gen_c12_murphy_expectile f o t (XFin a)) f o t in
   tot =x= mt /\ over =x= mo /\ under =x= mu.
 Proof.
-  intros Ha Hf. x3 f o t; murphy_go;
+  intros Ha. x3 f o t; murphy_go;
   try (rewrite Qabs_pos by lra; lra); try (rewrite Qabs_neg by lra; lra).
 Qed.
 
